@@ -1839,6 +1839,8 @@ func main() {
 	for _, sh := range []string{"none", "known", "unknown", "mixed", "repeated", "all"} {
 		mon.Floor("cli:revcomp:names:"+sh, 12)
 	}
+	mon.Floor("long:ReverseComplement", 6)
+	mon.Floor("long:Unalign", 6)
 	mon.Main("C06", []mon.Sub{
 		{Name: "witness", Quick: len(witnesses), Thorough: len(witnesses), Run: runWitness},
 		{Name: "exhaust", Quick: 1225, Thorough: 1225, Run: runExhaust},
@@ -1850,6 +1852,7 @@ func main() {
 		{Name: "unalign", Quick: 80000, Thorough: 1200000, Run: runUnalign},
 		{Name: "history", Quick: 100000, Thorough: 1500000, Run: runHistory},
 		{Name: "names", Quick: 60000, Thorough: 900000, Run: runNames},
+		{Name: "long", Quick: 6, Thorough: 24, Run: runLong},
 		{Name: "cli", Quick: 376, Thorough: 3200, Serial: true, Run: runCli},
 	})
 }
